@@ -161,8 +161,14 @@ static bool mtd_print(TickitTermDriver *ttd, const char *str, size_t len)
   while(pos.bytes < len) {
     TickitStringPos start = pos;
 
+    /* a NUL ends the text, and an invalid sequence is never counted past: neither would ever
+     * make progress, whatever the column limit */
+    if(!str[pos.bytes])
+      break;
+
     limit.columns++;
-    tickit_utf8_ncountmore(str, len, &pos, &limit);
+    if(tickit_utf8_ncountmore(str, len, &pos, &limit) == (size_t)-1)
+      break;
 
     if(pos.columns == start.columns)
       continue;
